@@ -119,4 +119,14 @@ PLAN = {
         runs=[dict(variant="hist", flavour="asan", quick=dict(cases=3000, size=100, shards=10, budget=40), thorough=dict(cases=100000, size=150, shards=12, budget=900)),
               dict(variant="bad", flavour="asan", quick=dict(cases=6000, size=60, shards=6, budget=40), thorough=dict(cases=60000, size=100, shards=4, budget=600))],
     ),
+    "C20": dict(
+        rule=("a log handler is installed, stdout and stderr of the child are replaced by two memfds, then a history runs: valid "
+              "edits, solves by all three entry points at display levels 0-3, accessor probes, basis loads and exact verdict "
+              "functions, copies, every invalid-call probe of C07, reads of missing / malformed files (LP, MPS, .gz, basis), writes "
+              "of LP/MPS/basis files. After EVERY library call both memfds must still be empty (attribution to the call), and the "
+              "handler must never receive NULL. Non-trivial = history containing a failing call; distinct = distinct history."),
+        technique="stateful PBT with captured standard streams as oracle",
+        min_nontrivial=dict(quick=300, thorough=3000),
+        runs=[dict(variant="", flavour="asan", quick=dict(cases=5000, size=100, shards=16, budget=40), thorough=dict(cases=150000, size=150, shards=16, budget=900))],
+    ),
 }
